@@ -33,6 +33,7 @@ type Case struct {
 	XCode      int    `json:",omitempty"` // one more option of this code ...
 	XData      string `json:",omitempty"` // ... and payload (hex)
 	Hops, Secs int    `json:",omitempty"` // header fields the cascade does not look at
+	RespFlag   string `json:",omitempty"` // what the plugin does to the REPLY's broadcast bit: "" | "set" | "clear"
 }
 
 // opt82 builds relay-agent-information variants: whatever sub-options a relay adds, the
@@ -105,6 +106,13 @@ func shaper(cur *Case) handler.Handler4 {
 		resp.ServerIPAddr = net.IPv4(192, 0, 2, 1).To4()
 		if cur.Reply == "NAK" {
 			resp.UpdateOption(dhcpv4.OptMessageType(dhcpv4.MessageTypeNak))
+		}
+		// the cascade follows the CLIENT's flag, whatever a plugin leaves in the reply
+		switch cur.RespFlag {
+		case "set":
+			resp.SetBroadcast()
+		case "clear":
+			resp.SetUnicast()
 		}
 		return resp, false
 	}
@@ -262,6 +270,22 @@ func run(r *ev.Run) {
 									c.HType = ht
 									eval(r, c)
 								}
+							}
+						}
+					}
+				}
+			}
+		}
+	}
+	// the reply's own broadcast bit, as left by a plugin
+	if len(idx) > 0 {
+		for _, gi := range []string{"0.0.0.0", "10.1.2.3"} {
+			for _, ci := range []string{"0.0.0.0", "10.1.2.3"} {
+				for _, bc := range []bool{false, true} {
+					for _, rep := range []string{"OFFER", "ACK", "NAK"} {
+						for _, rf := range []string{"set", "clear"} {
+							for _, bound := range []int{0, idx[0]} {
+								eval(r, Case{GI: gi, CI: ci, YI: "10.0.0.50", Bcast: bc, Reply: rep, Bound: bound, Oob: idx[0], HLen: 6, RespFlag: rf})
 							}
 						}
 					}
